@@ -48,12 +48,9 @@ PStr(p) == "(" \o ToString(p[1]) \o "," \o ToString(p[2]) \o ")"
 
 ---------------------------------------------------------------------------
 \* compressed-column arrays -> positions <<row, col>> (0-based) in storage order
-RECURSIVE ColSeq(_, _, _)
-ColSeq(outer, c, acc) ==
-  IF c >= Len(outer) THEN acc
-  ELSE ColSeq(outer, c + 1, acc \o [i \in 1..(outer[c + 1] - outer[c]) |-> c - 1])
-PosSeq(d) == LET cs == ColSeq(d.outer, 1, <<>>) IN RForce([k \in 1..Len(d.inner) |-> <<d.inner[k], cs[k]>>])
-PosSet(d) == LET ps == PosSeq(d) IN {ps[k] : k \in 1..Len(ps)}
+\* (hosts of Hessians at large offsets have thousands of mostly empty columns: only non-empty columns are visited)
+NonEmptyCols(d) == {c \in 1..d.cols : d.outer[c + 1] > d.outer[c]}
+PosSet(d) == UNION {{<<d.inner[k], c - 1>> : k \in (d.outer[c] + 1)..d.outer[c + 1]} : c \in NonEmptyCols(d)}
 \* index (1-based) of the stored position p
 IdxOf(d, p) == CHOOSE k \in (d.outer[p[2] + 1] + 1)..d.outer[p[2] + 2] : d.inner[k] = p[1]
 \* the recorded arrays are well-formed (otherwise the recording is broken: tool error)
